@@ -1,1 +1,107 @@
-pub fn placeholder() {}
+//! Shared helpers for the verification harness binaries: NDJSON input, the
+//! VIOLATION / STAT stdout protocol understood by /verif/vlib/core.py, seeds.
+use serde_json::{Value, json};
+use std::io::{BufRead, BufReader};
+
+pub fn read_ndjson(path: &str) -> Vec<Value> {
+    let f = std::fs::File::open(path).unwrap_or_else(|e| panic!("open {path}: {e}"));
+    BufReader::new(f)
+        .lines()
+        .map(|l| l.unwrap())
+        .filter(|l| !l.trim().is_empty())
+        .map(|l| serde_json::from_str(&l).unwrap_or_else(|e| panic!("bad json line: {e}: {l}")))
+        .collect()
+}
+
+pub fn seed() -> u64 {
+    std::env::var("VERIF_SEED").ok().and_then(|s| s.parse().ok()).unwrap_or(1)
+}
+
+pub fn tier_quick() -> bool {
+    std::env::var("VERIF_TIER").map(|t| t != "thorough").unwrap_or(true)
+}
+
+/// Collects violations and counters; prints them in the driver's protocol.
+pub struct Report {
+    pub violations: u64,
+    pub max_print: u64,
+    pub evaluations: u64,
+    pub distinct: std::collections::BTreeSet<String>,
+    pub samples: Vec<Value>,
+    pub extra: serde_json::Map<String, Value>,
+}
+
+impl Default for Report {
+    fn default() -> Self {
+        Self::new()
+    }
+}
+
+impl Report {
+    pub fn new() -> Self {
+        Report {
+            violations: 0,
+            max_print: 25,
+            evaluations: 0,
+            distinct: Default::default(),
+            samples: vec![],
+            extra: Default::default(),
+        }
+    }
+
+    pub fn violation(&mut self, key: &str, detail: Value, replay: Value) {
+        self.violations += 1;
+        if self.violations <= self.max_print {
+            println!("VIOLATION {}", json!({"key": key, "detail": detail, "replay": replay}));
+        }
+    }
+
+    pub fn eval(&mut self, n: u64) {
+        self.evaluations += n;
+    }
+
+    pub fn class(&mut self, c: impl Into<String>) {
+        self.distinct.insert(c.into());
+    }
+
+    pub fn sample(&mut self, v: Value) {
+        if self.samples.len() < 4 {
+            self.samples.push(v);
+        }
+    }
+
+    pub fn set(&mut self, k: &str, v: Value) {
+        self.extra.insert(k.to_string(), v);
+    }
+
+    pub fn add(&mut self, k: &str, n: u64) {
+        let cur = self.extra.get(k).and_then(|v| v.as_u64()).unwrap_or(0);
+        self.extra.insert(k.to_string(), json!(cur + n));
+    }
+
+    pub fn finish(self) {
+        let mut m = self.extra;
+        m.insert("evaluations".into(), json!(self.evaluations));
+        m.insert("distinct_classes".into(), json!(self.distinct.len()));
+        m.insert("violations".into(), json!(self.violations));
+        m.insert("samples".into(), json!(self.samples));
+        println!("STAT {}", Value::Object(m));
+    }
+}
+
+/// Run `f`, converting a panic of the code under test into Err(message).
+pub fn catch<T>(f: impl FnOnce() -> T + std::panic::UnwindSafe) -> Result<T, String> {
+    std::panic::catch_unwind(f).map_err(|e| {
+        if let Some(s) = e.downcast_ref::<&str>() {
+            s.to_string()
+        } else if let Some(s) = e.downcast_ref::<String>() {
+            s.clone()
+        } else {
+            "panic".to_string()
+        }
+    })
+}
+
+pub fn quiet_panics() {
+    std::panic::set_hook(Box::new(|_| {}));
+}
